@@ -2,6 +2,12 @@
 
 package utils
 
+import (
+	"reflect"
+	"sort"
+	"strconv"
+)
+
 // Export hooks for the verification harness (/verif). They only read state.
 
 // VerifBitListState returns the complete concrete state of a BitList.
@@ -38,4 +44,87 @@ func VerifRSSetCache(rs *ReedSolomonEncoder, polys [][]int) {
 		ps[i] = &GFPoly{rs.gf, append([]int(nil), p...)}
 	}
 	rs.polynomes = ps
+}
+
+// VerifDeepKey digests every field of v (also unexported ones, through reflection) into a
+// canonical string: the explorer's state key then also sees fields that did not exist when
+// the harness was written (a cache added to a struct, say).
+func VerifDeepKey(v any) string {
+	var b []byte
+	var walk func(x reflect.Value, depth int)
+	walk = func(x reflect.Value, depth int) {
+		if depth > 6 {
+			b = append(b, '~')
+			return
+		}
+		switch x.Kind() {
+		case reflect.Ptr, reflect.Interface:
+			if x.IsNil() {
+				b = append(b, 'n')
+				return
+			}
+			b = append(b, '*')
+			walk(x.Elem(), depth+1)
+		case reflect.Struct:
+			b = append(b, '{')
+			for i := 0; i < x.NumField(); i++ {
+				walk(x.Field(i), depth+1)
+				b = append(b, ';')
+			}
+			b = append(b, '}')
+		case reflect.Slice, reflect.Array:
+			if x.Kind() == reflect.Slice {
+				b = strconv.AppendInt(b, int64(x.Len()), 10)
+				b = append(b, '/')
+				b = strconv.AppendInt(b, int64(x.Cap()), 10)
+			}
+			b = append(b, '[')
+			// trailing zero elements are summarised by the length above
+			last := x.Len() - 1
+			for last >= 0 && x.Index(last).IsZero() {
+				last--
+			}
+			for i := 0; i <= last; i++ {
+				walk(x.Index(i), depth+1)
+				b = append(b, ',')
+			}
+			b = append(b, ']')
+		case reflect.Map:
+			keys := x.MapKeys()
+			strs := make([]string, len(keys))
+			for i, k := range keys {
+				var kb []byte
+				kb, b = b, nil
+				walk(k, depth+1)
+				b = append(b, '=')
+				walk(x.MapIndex(k), depth+1)
+				strs[i] = string(b)
+				b = kb
+			}
+			sort.Strings(strs)
+			b = append(b, 'm')
+			for _, s := range strs {
+				b = append(b, s...)
+				b = append(b, ',')
+			}
+		case reflect.Int, reflect.Int8, reflect.Int16, reflect.Int32, reflect.Int64:
+			b = strconv.AppendInt(b, x.Int(), 16)
+		case reflect.Uint, reflect.Uint8, reflect.Uint16, reflect.Uint32, reflect.Uint64, reflect.Uintptr:
+			b = strconv.AppendUint(b, x.Uint(), 16)
+		case reflect.Bool:
+			if x.Bool() {
+				b = append(b, 'T')
+			} else {
+				b = append(b, 'F')
+			}
+		case reflect.String:
+			b = strconv.AppendQuote(b, x.String())
+		case reflect.Float32, reflect.Float64:
+			b = strconv.AppendFloat(b, x.Float(), 'g', -1, 64)
+		default:
+			b = append(b, '?') // funcs, channels, unsafe pointers: identity is not state we can key on
+		}
+	}
+	walk(reflect.ValueOf(v), 0)
+	return string(b)
 }
